@@ -241,3 +241,26 @@ ROUND3 = {
     "C18": "SequenceObserver hand-off is atomic and EventualQueue._turn isolates calls (C18.R6).",
     "C20": "math.* applied to a value that may be an arbitrarily large JSON integer is a sink (OverflowError).",
 }
+
+
+_APP_LAST = ("In every Automat row of %s the outputs that run application-supplied code (protocol callbacks, status callbacks) come after the outputs "
+             "that do the machine's own work: the state has already changed when outputs run, so an output skipped by a raising callback is never made up for (%s).")
+ROUND6 = {
+    "C01": "The writers of the close verdict are the ones C08.R2 admits (C01.R8: a WrongPasswordError verdict cannot be replaced after the fact).",
+    "C02": "A delivery whose exception is caught inside the delivery loop still retires the phase (C02.R8 increment-after-caught-delivery: a raising application handler cannot make a phase show up twice).",
+    "C03": "A delivery whose exception is caught locally still advances the receive counter (C03.R2); a waiting read that the application cancels leaves the observer list (C03.R3 cancel-safe).",
+    "C04": "No except-clause of the receiver's transfer / write / extract / rename functions turns a failure into a normal return (C04.R9).",
+    "C05": "No except-clause of the receiver's write / extract / rename functions swallows a failure (C05.R7).",
+    "C06": "No except-clause in the record path of Connection turns a failure during record handling into a normal return (C06.R8).",
+    "C07": "Connection._cancel enters the terminal state in the call that closes the transport, and the listener's Deferred always joins the race (C07.R8); no stage of a contender's callback chain turns a failed connection attempt into a success of the race (C07.R9, callback-chain analysis: ok/fail outcome sets per stage).",
+    "C08": "RendezvousConnector.stop: the callback that tells the Terminator stoppedRC runs on every outcome of stopService() (C08.R9, callback-chain analysis).",
+    "C09": "An echo retires exactly the echoed phase from the outbound table (C09.R7).",
+    "C11": "The Leader's interval timer is wired to Manager methods (it outlives the connection it was made for) and its handle is cleared on expiry and cancelled with the connection (C11.R7, the timer-handle instances of C16.R2): a stale handle raises inside connection made / lost handling before the state machine hears of the event.",
+    "C12": "_Framer.add_and_parse reaches parse() on every path (C12.R7).",
+    "C13": _APP_LAST % ("SubChannel", "C13.R7"),
+    "C14": "Every Deferred the client creates with a canceller forgets itself there (C14.R6).",
+    "C15": "A SubChannel row tells the manager the subchannel is closed before it calls into the protocol (C15.R5).",
+    "C16": _APP_LAST % ("Manager", "C16.R5") + " The TrafficTimer, created once, is wired to methods of the Manager, not to one connection's bound methods (C16.R2 timer-wiring).",
+    "C17": _APP_LAST % ("Manager and Boss", "C17.R12") + " Manager.fail errors the main channel before anything else can raise (C17.R11); Dilator.stop chains stoppedD whichever way Manager.stop() returns (C17.R3); versions that arrived before dilate() are forwarded unless the slot is None - an empty versions object is a peer that cannot dilate (C17.R4).",
+    "C20": "The result of endpoint_from_hint_obj (None for a hint no endpoint can reach) is tested before use at every call site, wrappers included (C20.R7); a contender whose connection attempt failed - a peer-supplied name that does not resolve - stays failed (C20.R8); Manager.use_hints decides hint by hint, reading and keeping no Manager state (C20.R2).",
+}
